@@ -232,7 +232,11 @@ def enumerate_paths(b, start=0, max_paths=20000, max_visits=2, stop_at=None, wan
                         if isinstance(x, tuple) and x and x[0] == "refmut" and isinstance(x[1], int):
                             root = x[1]
                             if root != t["dest"]["l"] and not (1 <= root <= b.argc and _is_refparam(b, root)):
-                                env[root] = ("out", ct, ai)
+                                cur = sym.local(root, env)
+                                if mir.strip_ref(x[2]) == mir.strip_ref(cur) or mir.strip_all(x[2]) == mir.strip_all(cur):
+                                    env[root] = ("out", ct, ai)     # the whole local was handed out
+                                elif not (isinstance(cur, tuple) and cur and cur[0] == "mutated"):
+                                    env[root] = ("mutated", cur, root)   # only a field of it
                 if t["t"] is None:
                     out.append((events, ("diverge", bb, name)))
                     return
